@@ -173,8 +173,9 @@ struct C19 : Scenario {
     if (!greeted) { if (out->data.compare(0, 3, "+OK") != 0 || out->data.find("\r\n") != out->data.size() - 2) { w.violation("C19:greeting", "greeting is [" + esc(out->data) + "]"); return false; } greeted = true; outpos = out->data.size(); }
     else verify_last(w);
     if (w.aborted || quit_sent || eof_sent || desync) return false;
-    // stop at states that another session already extended (not while replaying the prefix that leads here)
-    if (!w.ex->in_prefix() && depth > 0 && !w.ex->outcome(state_hash())) { w.counters["sessions_merged_into_visited_state"]++; in->writers = 0; eof_sent = true; cur = &eofcmd; return true; }
+    // stop at states that another session already extended (not while replaying the prefix that leads here); the first
+    // `fulldepth` commands are never merged, so that state the model does not know of (buffers, cursors) left by one command is seen by the next
+    if (!w.ex->in_prefix() && depth >= cfg.geti("fulldepth", 1) && !w.ex->outcome(state_hash())) { w.counters["sessions_merged_into_visited_state"]++; in->writers = 0; eof_sent = true; cur = &eofcmd; return true; }
     if (depth >= cfg.geti("maxdepth", 12)) { in->writers = 0; eof_sent = true; cur = &eofcmd; return true; }
     int ci = w.ex->choose_n((int) cmds.size(), BK_FREE);
     cur = &cmds[ci]; depth++; session += (session.empty() ? "" : " | ") + cur->line; w.counters["transitions_cmd"]++;
